@@ -210,6 +210,7 @@ fn base(seed: u64, r: &mut Rng, max_len: usize, max_depth: usize, srcs: &[Src]) 
         sched_seed: mix(seed, 0x5C4E, 2),
         faults: vec![],
         starve_release: release,
+        quiet: 0,
     };
     gen_params(r, &mut scn);
     scn
@@ -339,6 +340,73 @@ pub fn generate(prop: &str, seed: u64) -> Scenario {
             scn.term = Term::CollectX;
             scn
         }
+        "C05" => {
+            // iterator sources twice as often: the source clause only speaks about them
+            let srcs = [Src::Vec, Src::SliceCloned, Src::Range, Src::IterExact, Src::IterUnknown, Src::IterExact, Src::IterUnknown];
+            let mut scn = base(seed, r, 200, 3, &srcs);
+            scn.term = gen_any_term(r, &scn);
+            fit_depth(&mut scn);
+            refresh_pred(r, &mut scn);
+            scn
+        }
+        "C08" => {
+            let mut scn = base(seed, r, 120, 3, &Src::ALL_FINITE);
+            // Max(n) set on the source and never changed afterwards
+            scn.nt.clear();
+            let n = match r.below(10) {
+                0 | 1 => 1,
+                2..=6 => r.range(2, 6),
+                7 => r.range(7, 9),
+                8 => 17,
+                _ => 64,
+            };
+            scn.nt.push((0, n));
+            if r.chance(1, 3) {
+                // input shorter than n
+                let k = r.range(0, n.min(12));
+                scn.vals.truncate(k);
+            }
+            scn.term = gen_any_term(r, &scn);
+            fit_depth(&mut scn);
+            refresh_pred(r, &mut scn);
+            scn
+        }
+        "C10" => gen_c10(seed, r),
+        "C11" => {
+            let mut scn = base(seed, r, 200, 3, &Src::ALL_FINITE);
+            scn.cs.clear();
+            let c = match r.below(10) {
+                0..=6 => r.range(1, 8),
+                7 | 8 => r.range(9, 16),
+                _ => scn.vals.len() + r.below(3),
+            }
+            .max(1);
+            scn.cs.push((0, if r.chance(1, 3) { Chunk::Raw(c) } else { Chunk::Exact(c) }));
+            // many threads, so that workers are spawned after one and two lag periods
+            if r.chance(1, 2) {
+                scn.nt.clear();
+                scn.nt.push((0, *r.pick(&[0usize, 5, 6, 8, 9, 12, 16, 17])));
+                scn.avail = r.range(8, 32);
+            }
+            scn.term = gen_any_term(r, &scn);
+            fit_depth(&mut scn);
+            refresh_pred(r, &mut scn);
+            scn
+        }
+        "C13" => {
+            let mut scn = base(seed, r, 200, 3, &Src::ALL_FINITE);
+            scn.term = gen_any_term(r, &scn);
+            // find on a prefix: the untouched remainder must still be dropped
+            if r.chance(1, 4) {
+                scn.term = Term::Find(Pred::Ids(vec![]));
+                refresh_pred(r, &mut scn);
+            }
+            fit_depth(&mut scn);
+            refresh_pred(r, &mut scn);
+            scn
+        }
+        "C14" => gen_c14(seed, r),
+        "C15" => gen_c15(seed, r),
         _ => {
             let mut scn = base(seed, r, 300, 3, &Src::ALL_FINITE);
             scn.term = gen_any_term(r, &scn);
@@ -383,4 +451,300 @@ pub fn gen_any_term(r: &mut Rng, scn: &Scenario) -> Term {
         20 => Term::All(gen_pred(r, scn)),
         _ => Term::MinByKey(r.range(1, 5) as u8),
     }
+}
+
+/// only policies under which every runnable thread is eventually scheduled
+fn fair_policy(r: &mut Rng) -> (Policy, u8, u64) {
+    match r.below(10) {
+        0..=2 => (Policy::Uniform, 0, 0),
+        3 => (Policy::Sticky(30), 0, 0),
+        4 => (Policy::Sticky(60), 0, 0),
+        5 => (Policy::Sticky(90), 0, 0),
+        6 | 7 => (
+            Policy::Starve(match r.below(5) {
+                0 => 255,
+                k => (k - 1) as u8,
+            }),
+            0,
+            *r.pick(&[20u64, 100, 400]),
+        ),
+        8 => (Policy::NewestFirst, 20, 0),
+        _ => (Policy::SpawnerFirst, 5, 0),
+    }
+}
+
+fn gen_c10(seed: u64, r: &mut Rng) -> Scenario {
+    let endless = r.chance(1, 2);
+    let srcs: &[Src] = if endless { &[Src::IterEndless] } else { &Src::ALL_FINITE };
+    let mut scn = base(seed, r, 300, 3, srcs);
+    let (p, noise, rel) = fair_policy(r);
+    scn.policy = p;
+    scn.noise = noise;
+    scn.starve_release = rel;
+    if !endless && r.chance(1, 3) {
+        // long finite input
+        let n = r.range(300, 1200);
+        scn.vals = gen_vals(r, n);
+    }
+    // bounded chunk sizes: a chunk of 1000 elements of an endless source is legitimate but only costs time
+    for c in scn.cs.iter_mut() {
+        c.1 = match c.1 {
+            Chunk::Raw(x) => Chunk::Raw(x.min(24)),
+            Chunk::Exact(x) => Chunk::Exact(x.min(24)),
+            Chunk::Min(x) => Chunk::Min(x.min(24)),
+            x => x,
+        };
+    }
+    if endless {
+        // no eager site (it would, legitimately by the library's design, never return: known finding of C10,
+        // demonstrated on finite inputs), and no stage that rejects everything
+        let mut tries = 0;
+        loop {
+            tries += 1;
+            let bad = !scn.eager_positions().is_empty()
+                || scn.ops.iter().any(|o| matches!(o, Op::Filter { t: 0, .. } | Op::FilterMap { t: 0, .. }));
+            if !bad {
+                break;
+            }
+            let d = r.range(0, 3);
+            scn.ops = (0..d).map(|_| { let k = r.below(4); gen_op(r, k) }).collect();
+            scn.nt.retain(|x| x.0 as usize <= d);
+            scn.cs.retain(|x| x.0 as usize <= d);
+            if tries > 20 {
+                scn.ops.clear();
+                scn.nt.retain(|x| x.0 == 0);
+                scn.cs.retain(|x| x.0 == 0);
+                break;
+            }
+        }
+        if scn.vals.is_empty() {
+            scn.vals = vec![1, 2, 3];
+        }
+    }
+    // terminal: a match must exist on endless sources
+    let kind = r.below(10);
+    if endless {
+        // place the match on one element of the first K source elements
+        let k = *r.pick(&[1usize, 2, 5, 10, 30, 60, 150]);
+        let mut probe = scn.clone();
+        probe.src = Src::IterExact;
+        probe.vals = (0..k + 40).map(|i| crate::closures::endless_val(&scn.vals, i)).collect();
+        probe.term = Term::Count;
+        let rf = reference(&probe);
+        let cands: Vec<u64> = rf.finals.iter().filter(|f| f.0 + 1 >= k.min(rf.finals.last().map(|l| l.0 + 1).unwrap_or(0))).map(|f| f.1.id).collect();
+        if cands.is_empty() {
+            // nothing survives the chain early on: drop the chain
+            scn.ops.clear();
+            scn.nt.retain(|x| x.0 == 0);
+            scn.cs.retain(|x| x.0 == 0);
+            scn.term = Term::Find(Pred::Ids(vec![src_id(k)]));
+        } else {
+            let id = cands[r.below(cands.len().min(8))];
+            scn.term = match kind {
+                0..=5 => Term::Find(Pred::Ids(vec![id])),
+                6 | 7 => Term::Any(Pred::Ids(vec![id])),
+                _ => {
+                    if scn.ops.is_empty() || !rf.finals.is_empty() {
+                        Term::First
+                    } else {
+                        Term::Find(Pred::Ids(vec![id]))
+                    }
+                }
+            };
+        }
+        fit_depth(&mut scn);
+        if matches!(scn.term, Term::Any(_)) && scn.ops.len() <= 1 {
+            // the chain may have been cut: place again
+            let mut probe = scn.clone();
+            probe.src = Src::IterExact;
+            probe.vals = (0..k + 40).map(|i| crate::closures::endless_val(&scn.vals, i)).collect();
+            probe.term = Term::Count;
+            let rf = reference(&probe);
+            match rf.finals.get(r.below(rf.finals.len().max(1))) {
+                Some(f) => scn.term = Term::Any(Pred::Ids(vec![f.1.id])),
+                None => {
+                    scn.ops.clear();
+                    scn.term = Term::Any(Pred::Ids(vec![src_id(k)]));
+                }
+            }
+        }
+        // `first` needs something to survive
+        if scn.term == Term::First {
+            let mut probe = scn.clone();
+            probe.src = Src::IterExact;
+            probe.vals = (0..400).map(|i| crate::closures::endless_val(&scn.vals, i)).collect();
+            probe.term = Term::Count;
+            if reference(&probe).finals.is_empty() {
+                scn.ops.clear();
+                scn.nt.retain(|x| x.0 == 0);
+                scn.cs.retain(|x| x.0 == 0);
+            }
+        }
+    } else {
+        match kind {
+            0..=4 => scn.term = Term::Find(gen_pred(r, &scn)),
+            5 => scn.term = Term::First,
+            6 | 7 => {
+                scn.term = Term::Any(Pred::Ids(vec![]));
+                fit_depth(&mut scn);
+                refresh_pred(r, &mut scn);
+            }
+            _ => gen_with_index(r, &mut scn),
+        }
+    }
+    scn
+}
+
+fn gen_c14(seed: u64, r: &mut Rng) -> Scenario {
+    let mut scn = base(seed, r, 64, 3, &Src::ALL_FINITE);
+    if r.chance(2, 3) {
+        // small inputs: every (stage, position) is reached densely
+        let n = r.range(1, 24);
+        scn.vals = gen_vals(r, n);
+    }
+    scn.term = gen_any_term(r, &scn);
+    fit_depth(&mut scn);
+    refresh_pred(r, &mut scn);
+    let rf = reference(&scn);
+    let nfaults = if r.chance(1, 6) { 2 } else { 1 };
+    for _ in 0..nfaults {
+        // candidate fault sites: chain closure calls (with their element), inner iterator steps, clones,
+        // terminal closures
+        let mut sites: Vec<Fault> = vec![];
+        if !rf.calls.is_empty() {
+            for _ in 0..3 {
+                let c = rf.calls[r.below(rf.calls.len())];
+                if c.0 > INNER {
+                    sites.push(Fault { stage: c.0, trigger: Trigger::Arg(crate::closures::inner_fault_arg(c.1, c.2)) });
+                } else {
+                    sites.push(Fault { stage: c.0, trigger: Trigger::Arg(c.1) });
+                }
+            }
+            let c = rf.calls[r.below(rf.calls.len())];
+            sites.push(Fault { stage: c.0, trigger: Trigger::Nth(r.below(rf.calls.len().min(12)) as u32) });
+        }
+        if scn.src == Src::SliceCloned && !rf.clones.is_empty() {
+            sites.push(Fault { stage: STAGE_CLONE, trigger: Trigger::Arg(rf.clones[r.below(rf.clones.len())]) });
+        }
+        let nfin = rf.finals.len();
+        if nfin > 0 {
+            let fid = rf.finals[r.below(nfin)].1.id;
+            let term_sites: Vec<Fault> = match &scn.term {
+                Term::Find(_) | Term::Any(_) | Term::All(_) | Term::FindWithIndex(_) => vec![Fault { stage: STAGE_PRED, trigger: Trigger::Arg(fid) }],
+                Term::ForEach => vec![Fault { stage: STAGE_EACH, trigger: Trigger::Arg(fid) }],
+                Term::Reduce(_) | Term::Fold(_) | Term::Sum => vec![Fault { stage: STAGE_RED, trigger: Trigger::Nth(r.below(nfin) as u32) }],
+                Term::MinBy(_) | Term::MaxBy(_) => vec![Fault { stage: STAGE_CMP, trigger: Trigger::Nth(r.below(nfin) as u32) }],
+                Term::MinByKey(_) | Term::MaxByKey(_) => vec![Fault { stage: STAGE_KEY, trigger: Trigger::Nth(r.below(2 * nfin) as u32) }],
+                _ => vec![],
+            };
+            // terminal closures are fewer: weight them up
+            for t in term_sites {
+                sites.push(t);
+                sites.push(t);
+            }
+        }
+        if let Term::Fold(_) = &scn.term {
+            if nfin == 0 {
+                sites.push(Fault { stage: STAGE_IDENT, trigger: Trigger::Nth(0) });
+            }
+        }
+        if sites.is_empty() {
+            break;
+        }
+        let ft = sites[r.below(sites.len())];
+        scn.faults.push(ft);
+    }
+    scn
+}
+
+/// C15: the dense configuration grid, walked cell by cell: consecutive seeds visit consecutive cells.
+pub const C15_LENS: usize = 41;
+pub const C15_NT: [Option<usize>; 12] = [None, Some(0), Some(1), Some(2), Some(3), Some(4), Some(5), Some(6), Some(9), Some(17), Some(64), Some(8)];
+pub const C15_PIPES: usize = 7;
+
+pub fn c15_chunks(len: usize) -> Vec<Option<Chunk>> {
+    let mut v = vec![None, Some(Chunk::Auto), Some(Chunk::Raw(0))];
+    let mut cs = vec![1usize, 2, 3, 4, 5, 7, 8, 16, len.saturating_sub(1).max(1), len.max(1), len + 1, 1000];
+    cs.dedup();
+    for c in cs {
+        v.push(Some(Chunk::Exact(c)));
+        v.push(Some(Chunk::Min(c)));
+    }
+    v
+}
+
+fn gen_c15(seed: u64, r: &mut Rng) -> Scenario {
+    let large = seed % 1009 == 0;
+    let mut idx = (seed / 1) as usize;
+    let len = idx % C15_LENS;
+    idx /= C15_LENS;
+    let nt = C15_NT[idx % C15_NT.len()];
+    idx /= C15_NT.len();
+    let pipe = idx % C15_PIPES;
+    idx /= C15_PIPES;
+    let known = idx % 2 == 0;
+    idx /= 2;
+    let chunks = c15_chunks(len);
+    let cs = chunks[idx % chunks.len()];
+    let (policy, noise, release) = gen_policy(r);
+    let mut scn = Scenario {
+        seed,
+        src: if known { *r.pick(&[Src::Vec, Src::SliceCloned, Src::Range, Src::IterExact]) } else { Src::IterUnknown },
+        vals: gen_vals(r, len),
+        ops: vec![],
+        nt: nt.map(|n| vec![(0u8, n)]).unwrap_or_default(),
+        cs: cs.map(|c| vec![(0u8, c)]).unwrap_or_default(),
+        term: Term::Count,
+        policy,
+        noise,
+        avail: gen_avail(r),
+        sched_seed: mix(seed, 0x5C4E, 2),
+        faults: vec![],
+        starve_release: release,
+        quiet: 0,
+    };
+    match pipe {
+        0 => {
+            scn.ops = vec![gen_op(r, 0)];
+            scn.term = Term::CollectVec;
+        }
+        1 => {
+            scn.ops = vec![gen_op(r, 1)];
+            scn.term = Term::CollectVec;
+        }
+        2 => {
+            scn.ops = vec![gen_op(r, 2)];
+            scn.term = Term::CollectVec;
+        }
+        3 => {
+            scn.ops = vec![gen_op(r, 0)];
+            scn.term = Term::Reduce(gen_red(r));
+        }
+        4 => {
+            scn.ops = vec![gen_op(r, 0)];
+            scn.term = Term::Find(Pred::Ids(vec![]));
+            refresh_pred(r, &mut scn);
+        }
+        5 => {
+            scn.ops = vec![gen_op(r, 3)];
+            scn.term = Term::Count;
+        }
+        _ => {
+            scn.ops = vec![gen_op(r, 1)];
+            scn.term = Term::CollectX;
+        }
+    }
+    if large {
+        // sampled large inputs; closures are yield points only every 2^k-th event
+        let n = *r.pick(&[1usize << 10, 1 << 10, 1 << 10, (1 << 14) + 1, (1 << 14) + 1, (1 << 14) + 1, 1 << 17, 1 << 17, (1 << 20) + 3]);
+        scn.vals = spec_vals(n, r.below(64) as u64);
+        scn.quiet = if n > (1 << 15) { 12 } else { 6 };
+        if let Term::Find(_) = scn.term {
+            refresh_pred(r, &mut scn);
+        }
+        if scn.src == Src::SliceCloned {
+            scn.src = Src::Vec;
+        }
+    }
+    scn
 }
